@@ -210,6 +210,40 @@ func exTwice(a kv) string {
 	return fmt.Sprintf("run1=%s marker1=%s run2=%s marker2=%s", run1, exB01(m1), run2, exB01(m2))
 }
 
+// exBusy: the executable passes the check but cannot be started right now because a writer holds it open (ETXTBSY);
+// while the call is under way the file is handed to a non-root owner (or made world-writable) and the writer goes away.
+// Whatever the call does about the busy file, a file that is no longer root-controlled must never be executed.
+func exBusy(a kv) string {
+	dir := execCaseDir()
+	defer os.RemoveAll(dir)
+	script, marker := exMarkerScript(dir)
+	exSetStat(script, 0, 0, 0o755)
+	w, err := os.OpenFile(script, os.O_WRONLY, 0)
+	if err != nil {
+		panic(err)
+	}
+	done := make(chan string, 1)
+	go func() { done <- exRunSafe(script, nil, 2*time.Second) }()
+	time.Sleep(time.Duration(a.int("after_ms", 40)) * time.Millisecond)
+	if a.str("how", "chown") == "chown" {
+		exSetStat(script, 1000, 1000, 0o755)
+	} else {
+		exSetStat(script, 0, 0, 0o757)
+	}
+	_ = w.Close()
+	var run string
+	select {
+	case run = <-done:
+	case <-time.After(8 * time.Second):
+		run = "blocked"
+	}
+	if strings.HasPrefix(run, "ok:") {
+		run = "ok"
+	}
+	time.Sleep(20 * time.Millisecond)
+	return fmt.Sprintf("run=%s marker=%s", run, exB01(exCountMarker(exExists(marker))))
+}
+
 func exDangling(a kv) string {
 	dir := execCaseDir()
 	defer os.RemoveAll(dir)
@@ -496,6 +530,60 @@ func exUser(a kv) (res string) {
 	return "bad-op"
 }
 
+// exUserPair: two activities use the SAME cmd fan at once (a statistics scrape / REST request during a control cycle):
+// the first call runs a command that ignores its deadline; `gap_ms` later a second call is made from another goroutine.
+// Each call has to come back within ITS OWN timeout + margin, whatever the other one is doing.
+func exUserPair(a kv) (res string) {
+	dir := execCaseDir()
+	defer os.RemoveAll(dir)
+	defer exKillMarked()
+	script := exBehaviourScript(dir, a.str("beh", "sleep"), -1)
+	ec := &configuration.ExecConfig{Exec: script}
+	fan := &fans.CmdFan{Config: configuration.FanConfig{ID: "f", Cmd: &configuration.CmdFanConfig{
+		SetPwm: ec, GetPwm: ec, GetRpm: ec}}}
+	call := func(kind string) (r string) {
+		defer func() {
+			if p := recover(); p != nil {
+				r = "panic:" + panicClass(p)
+			}
+		}()
+		var err error
+		switch kind {
+		case "fanpwm":
+			_, err = fan.GetPwm()
+		case "fanrpm":
+			_, err = fan.GetRpm()
+		case "fanset":
+			err = fan.SetPwm(100)
+		case "rpmavg":
+			_ = fan.GetRpmAvg()
+		}
+		if err != nil {
+			return "err"
+		}
+		return "ok"
+	}
+	type out struct {
+		r  string
+		el time.Duration
+	}
+	ca, cb := make(chan out, 1), make(chan out, 1)
+	go func() { t := time.Now(); r := call(a.str("first", "fanpwm")); ca <- out{r, time.Since(t)} }()
+	time.Sleep(time.Duration(a.int("gap_ms", 100)) * time.Millisecond)
+	go func() { t := time.Now(); r := call(a.str("second", "fanrpm")); cb <- out{r, time.Since(t)} }()
+	get := func(c chan out) out {
+		select {
+		case o := <-c:
+			return o
+		case <-time.After(9 * time.Second):
+			return out{"blocked", 9 * time.Second}
+		}
+	}
+	oa, ob := get(ca), get(cb)
+	bound := 2000*time.Millisecond + 500*time.Millisecond
+	return fmt.Sprintf("a=%s awithin=%s b=%s bwithin=%s", oa.r, exB01(oa.el <= bound), ob.r, exB01(ob.el <= bound))
+}
+
 func init() {
 	register("ex", func(op string, a kv) string {
 		if os.Geteuid() != 0 {
@@ -514,8 +602,12 @@ func init() {
 			return exStatRace(a)
 		case "ex.run":
 			return exRun(a)
+		case "ex.busy":
+			return exBusy(a)
 		case "ex.user":
 			return exUser(a)
+		case "ex.userpair":
+			return exUserPair(a)
 		case "ex.reset":
 			execExecuted, execNotExecuted = 0, 0
 			return "ok"
